@@ -10,7 +10,12 @@ rom_mbi(cfg, keys, img) -> {"plain": bytes, "msg": bytes, "obl": [obligation, ..
           "hmac": bool,                            load-to-RAM images carry HMAC (+ optional key store) after the 64-byte header
           "tzsize": int,                           size of the TrustZone preset block of the device
           "fixed_type": int | None,                MC56F81xxx: the image type is not in the header
-          "types": [int] | None}                   image types the device boots (secure-boot policy); None = all
+          "types": [int] | None,                   image types the device boots (secure-boot policy); None = all
+          "ks_configured": bool}                   key source of the device for encrypted images, as the CONFIGURATION says:
+                                                   True = KEYSTORE (user key; with or without embedded key-store data),
+                                                   False = no key store configured / OTP (key derived from the master key).
+                                                   Which key real silicon takes for KEYSTORE without data is not judged here
+                                                   (convention pinned by the repository's golden files).
   keys = {"rkth": bytes, "user_key": bytes | None}
 obligations (asymmetric checks, discharged by `discharge`):
   ("RootKeyIn", cert_der, [rkh entries])     SHA-256(modulus || exponent) of the certificate's RSA key is one of the entries
@@ -218,7 +223,7 @@ def rom_mbi(cfg, keys, img):
             p = off + cbsize
             hdr_copy, iv, enc_tz = s[p:p + 56], s[p + 56:p + 72], s[p + 72:il]
             cipher = hdr_copy + s[56:off] + enc_tz
-            key = keys["user_key"] if (u32(s, 0x24) & KEY_STORE_FLAG) else derive_enc_image_key(keys["user_key"])
+            key = keys["user_key"] if cfg.get("ks_configured") else derive_enc_image_key(keys["user_key"])
             plain = aes_ctr(key, iv, cipher)
             # the decrypted image is again a header + application (+ TrustZone): its own IVT words agree with the outer ones
             need(plain[0x20:0x2C] == s[0x20:0x2C] and plain[0x34:0x38] == s[0x34:0x38], "decrypted IVT words differ from the plain ones")
@@ -387,3 +392,32 @@ def accept(cfg, keys, img):
         if not ok:
             return False, f"{ob[0]}: {why}"
     return True, r
+
+
+# ------------------------------------------------------------------ independent root-of-trust values from the configured keys
+def rsa_rkh(cert_der_path):
+    from cryptography import x509
+    pn = x509.load_der_x509_certificate(open(cert_der_path, "rb").read()).public_key().public_numbers()
+    n, e = pn.n, pn.e
+    return hashlib.sha256(n.to_bytes((n.bit_length() + 7) // 8, "big") + e.to_bytes((e.bit_length() + 7) // 8, "big")).digest()
+
+
+def expected_rot_v1(root_cert_paths):
+    """cert block v1: table = 4 x SHA-256(modulus || exponent) (unused entries zero), RKTH = SHA-256(table)"""
+    table = [rsa_rkh(p) for p in root_cert_paths] + [bytes(32)] * (4 - len(root_cert_paths))
+    return table, hashlib.sha256(b"".join(table)).digest()
+
+
+def expected_rot_v21(root_pub_pem_paths):
+    """cert block v2.1: entry = H(X || Y) with both coordinates at the FULL coordinate size of the curve, H = SHA-256 (P-256) /
+    SHA-384 (P-384); RKTH = H(table) for 2..4 keys, the single entry for one key"""
+    from cryptography.hazmat.primitives import serialization
+    entries = []
+    H = None
+    for p in root_pub_pem_paths:
+        k = serialization.load_pem_public_key(open(p, "rb").read())
+        cl = (k.curve.key_size + 7) // 8
+        H = hashlib.sha256 if cl == 32 else hashlib.sha384
+        pn = k.public_numbers()
+        entries.append(H(pn.x.to_bytes(cl, "big") + pn.y.to_bytes(cl, "big")).digest())
+    return entries, (entries[0] if len(entries) == 1 else H(b"".join(entries)).digest())
